@@ -11,6 +11,7 @@ import (
 	"reflect"
 	"sort"
 	"strconv"
+	"strings"
 	"sync"
 	"time"
 
@@ -89,6 +90,11 @@ type Engine struct {
 	// HarnessErrors collects statements the model cannot parse or type: a harness problem, never a violation.
 	HarnessErrors []string
 	OnChange func(Change)
+	// BeforeSelect, if set, runs (without the engine lock) when a SELECT on a table arrives.
+	BeforeSelect func()
+	// AfterSelect runs (without the engine lock) after a SELECT computed its rows and
+	// before they are handed back to the caller.
+	AfterSelect func()
 }
 
 func timeCanon(t time.Time) time.Time { return t.UTC().Truncate(time.Microsecond) }
@@ -782,7 +788,15 @@ func (c *conn) QueryContext(ctx context.Context, q string, args []driver.NamedVa
 	if err := ctx.Err(); err != nil {
 		return nil, err
 	}
-	return c.s.query(q, named(args))
+	isSel := strings.HasPrefix(q, "SELECT") && !strings.Contains(q, "information_schema")
+	if h := c.s.e.BeforeSelect; h != nil && isSel {
+		h()
+	}
+	r, err := c.s.query(q, named(args))
+	if h := c.s.e.AfterSelect; h != nil && isSel && err == nil {
+		h()
+	}
+	return r, err
 }
 
 func (c *conn) ExecContext(ctx context.Context, q string, args []driver.NamedValue) (driver.Result, error) {
